@@ -11,7 +11,7 @@ fn ilist(rng: &mut Rng, n: usize) -> String {
 
 /// One block of forms; `u` is a unique suffix for global names.
 pub fn block(rng: &mut Rng, u: usize, tags: &mut Vec<String>) -> Vec<String> {
-    let t = rng.below(17);
+    let t = rng.below(19);
     tags.push(format!("cont-t{}", t));
     let a = rng.range(1, 9);
     let b = rng.range(2, 5);
@@ -231,6 +231,54 @@ pub fn block(rng: &mut Rng, u: usize, tags: &mut Vec<String>) -> Vec<String> {
                 f.push(format!("(if (< n{u} 2) (begin (set! n{u} (+ n{u} 1)) (k{u} n{u})) 'done)", u = u));
             }
             f
+        }
+        16 => {
+            // a mutable object delivered through a continuation (from a later top-level form, non-tail and
+            // through a tail call) is the object itself: mutations through the receiving place and through
+            // the sender's alias are the same mutations
+            let mk = *rng.pick(&["(list 1 2 3)", "(cons 1 2)", "(vector 1 2 3)", "(list (list 1) 2)"]);
+            let isvec = mk.starts_with("(vector");
+            let setter = if isvec { "vector-set!" } else { "set-car!" };
+            let idx = if isvec { " 0" } else { "" };
+            let tailform = rng.below(2) == 1;
+            let mut f = vec![
+                format!("(define k{u} #f)", u = u),
+                format!("(define n{u} 0)", u = u),
+                format!("(define p{u} {mk})", u = u, mk = mk),
+                format!("(define (deliver{u} v) (k{u} v))", u = u),
+                format!("(define q{u} (call/cc (lambda (c) (set! k{u} c) 'first)))", u = u),
+                format!(
+                    "(if (< n{u} 1) (begin (set! n{u} (+ n{u} 1)) {}) 'done)",
+                    if tailform { format!("(deliver{u} p{u})", u = u) } else { format!("(k{u} p{u})", u = u) },
+                    u = u
+                ),
+                format!("({setter} q{u}{idx} {a})", setter = setter, u = u, idx = idx, a = a * 10),
+                format!("(list q{u} p{u} (eq? q{u} p{u}))", u = u),
+                format!("({setter} p{u}{idx} {b})", setter = setter, u = u, idx = idx, b = b * 100),
+                format!("(list q{u} p{u})", u = u),
+            ];
+            f.push(format!("(define (junk{u} n) (if (= n 0) '() (cons (vector n n) (junk{u} (- n 1)))))", u = u));
+            f.push(format!("(length (junk{u} 60))", u = u));
+            f.push(format!("(list q{u} p{u})", u = u));
+            f
+        }
+        17 => {
+            // a fresh pair made by the sender, delivered into a let-bound variable and into a global,
+            // then mutated and read after an allocation burst
+            vec![
+                format!("(define k{u} #f)", u = u),
+                format!("(define n{u} 0)", u = u),
+                format!("(define g{u} '())", u = u),
+                format!("(define (junk{u} n) (if (= n 0) '() (cons (vector n n) (junk{u} (- n 1)))))", u = u),
+                format!(
+                    "(let ((x (call/cc (lambda (c) (set! k{u} c) (list 0))))) (set! g{u} x) (set-car! x (+ (car x) {a})) (list 'x x))",
+                    u = u, a = a
+                ),
+                format!("(if (< n{u} 2) (begin (set! n{u} (+ n{u} 1)) (k{u} (list n{u} {b}))) 'done)", u = u, b = b),
+                format!("(length (junk{u} 80))", u = u),
+                format!("g{u}", u = u),
+                format!("(begin (set-cdr! g{u} 'tail) g{u})", u = u),
+            ]
         }
         _ => {
             // invoked from inside a for-each callback of a later form: abandons that loop
